@@ -1,6 +1,92 @@
-//! C19 — stub (to be written; see /verif/harness/AUTHORING.md and DESIGN.md §3 C19)
-use vengine::Property;
+//! C19 — serialised models and parameter sets deserialise to behaviourally identical values.
+//!
+//! One generic round-trip helper (`rt::roundtrip`: bincode, MessagePack compact + named, JSON when
+//! every float is finite) and one small adapter per serialisable type. An adapter builds the value
+//! (a parameter set from generated dials, or a fitted instance from a small generated dataset),
+//! pushes it through the helper and compares the restored value with the original: `PartialEq`
+//! where defined, every public accessor bit for bit, `predict` / `transform` on generated queries
+//! bit for bit, and for parameter sets the `check_ref` verdict and the model obtained by refitting.
+
+pub mod rt;
+pub mod util;
+
+mod m_clustering;
+mod m_linear;
+mod m_small;
+mod m_super;
+mod m_text;
+mod m_transform;
+
+use proptest::prelude::*;
+use serde::{Deserialize, Serialize};
+use vengine::{enum_sub, prop_sub, Property, Tier};
+
+/// Generated input shared by the numeric adapters.
+#[derive(Debug, Clone, Serialize, Deserialize)]
+pub struct Case {
+    /// selects the adapter inside the sub-check (monotone index map)
+    pub kind: u16,
+    /// element type of the data: f32 instead of f64
+    pub f32: bool,
+    /// training records, n × p; every value is a multiple of 2^-8 in (-16, 16), exact in f32 and f64
+    pub x: Vec<Vec<f64>>,
+    /// query records, m × p
+    pub q: Vec<Vec<f64>>,
+    /// per-row target material (labels, regression targets are derived from it)
+    pub y: Vec<u16>,
+    /// hyper-parameter dials, read in order by the adapter
+    pub knobs: Vec<u16>,
+    /// seed for the estimator's own random generator
+    pub seed: u64,
+}
+
+fn value(mode: u8) -> BoxedStrategy<f64> {
+    match mode {
+        // many duplicates / constant columns
+        0 => (-2i32..=2).prop_map(|v| v as f64).boxed(),
+        _ => vengine::gen::gauss().prop_map(|g| ((g * 2.0 * 256.0).round() / 256.0).clamp(-15.0, 15.0)).boxed(),
+    }
+}
+
+pub fn case_strategy(nkinds: u16, max_n: usize, max_p: usize) -> impl Strategy<Value = Case> {
+    (4usize..=max_n, 1usize..=max_p, 1usize..=4, prop_oneof![1 => Just(0u8), 5 => Just(1u8)]).prop_flat_map(
+        move |(n, p, m, mode)| {
+            (
+                0..nkinds,
+                any::<bool>(),
+                proptest::collection::vec(proptest::collection::vec(value(mode), p), n),
+                proptest::collection::vec(proptest::collection::vec(value(1), p), m),
+                proptest::collection::vec(any::<u16>(), n),
+                proptest::collection::vec(any::<u16>(), 12),
+                any::<u64>(),
+            )
+                .prop_map(|(kind, f32, x, q, y, knobs, seed)| Case { kind, f32, x, q, y, knobs, seed })
+        },
+    )
+}
 
 pub fn property() -> Property {
-    Property { id: "C19", rule: "", assumptions: vec![], subs: vec![] }
+    Property {
+        id: "C19",
+        rule: "case = (adapter kind, f32|f64, n×p training matrix, m×p query matrix, label material, 12 hyper-parameter dials, RNG seed) \
+               for the numeric types, (kind, documents over a small vocabulary with upper case / composed characters, dials) for the \
+               vectorisers, and an enumeration of every unit / enum / error type. Each case builds a parameter set or a fitted instance, \
+               round-trips it through bincode, MessagePack (compact and named) and JSON (only when all floats are finite) and compares \
+               PartialEq, byte-identical re-serialisation, every public accessor, predict/transform on the queries (bit equality), and for \
+               parameter sets the check_ref verdict and the refitted model. Non-trivial = a fitted instance with >= 2 learned arrays, or a \
+               type with a serde(skip) / custom bound / RefCell / HashMap field; distinct = distinct canonical JSON of the case",
+        assumptions: util::assumptions(),
+        subs: vec![
+            prop_sub("svm_trees_bayes", 900, 22000, |t: Tier| case_strategy(m_super::NKINDS, t.pick(12, 24), 3), m_super::check)
+                .require(m_super::REQUIRED),
+            prop_sub("clustering", 700, 18000, |t: Tier| case_strategy(m_clustering::NKINDS, t.pick(12, 30), 3), m_clustering::check)
+                .require(m_clustering::REQUIRED),
+            prop_sub("linear_models", 900, 22000, |t: Tier| case_strategy(m_linear::NKINDS, t.pick(12, 30), 4), m_linear::check)
+                .require(m_linear::REQUIRED),
+            prop_sub("transforms", 900, 22000, |t: Tier| case_strategy(m_transform::NKINDS, t.pick(12, 30), 4), m_transform::check)
+                .require(m_transform::REQUIRED),
+            prop_sub("text", 500, 12000, |t: Tier| m_text::strategy(t), m_text::check).require(m_text::REQUIRED),
+            enum_sub("small_types", |t: Tier| m_small::cases(t), m_small::check),
+        ],
+    }
 }
